@@ -15,6 +15,7 @@ REQUIRED_EVENTS = ["rot_matrix_compared", "iso_roundtrips", "pipeline_fields_com
 RULE = (
     "seeded configurations (dim 1-4, angle vectors incl. 0, +-pi/2, pi, >2pi, ratios 1e-3..1e3, models); "
     "a case is non-trivial if at least one anisotropy ratio != 1 or one angle != 0 (dim>1) or it is a padding-rule case"
+    " Also: live geometry updates (anis, angles, len_scale/integral_scale lists, dim) on used models; rotated models with all ratios 1, ratios within 1e-5 of 1, unrotated stretched models; universal kriging with the drift stated in both frames; anisotropy fitted at construction."
 )
 ASSUMPTIONS = [
     "O-ROT (gsverif/oracles/rot.py) encodes the documented conventions: ccw about z in 2-D; Rx(roll)Ry(pitch)Rz(yaw) in 3-D",
